@@ -420,7 +420,7 @@ pub fn run_c16(w: &mut W) {
             allowed = h.parsers[0].clone();
             ops = h.ops.into_iter().map(|x| x.1).collect();
         }
-        let h = super::common::History { family: "json", parsers: vec![allowed.clone(), allowed], ops: vec![] };
+        let h = super::common::History { family: "json", parsers: vec![allowed.clone(), allowed], ops: vec![], reconf: vec![] };
         let mut sut = Sut::new(0);
         sut.parsers = make_parsers(&h);
         let mut ok = true;
